@@ -564,3 +564,108 @@ def c19_run(case):
                waited=bool(client.waited), left=len(client.requests) + (len(reqs) - queued), sent_to=dict(world.sent_to), unknown=list(world.unknown_target),
                conns=[p for p, _ in world.socks])
     return out
+
+
+# ----------------------------------------------------------------------------------------------
+# C14, sequences: requests built by real Requester(s) -> one connection of a real Server (ONE Requestant, reused) -> WSGI app
+
+C14_BOUNDARY_N = 0xabcdef123456
+C14_BOUNDARY = ("____________{0:012x}".format(C14_BOUNDARY_N)).encode("ascii")
+
+
+def c14_seq_run(specs, sched):
+    """specs = [(method, path, qargs, headers, bkind, bval, explicit_cl, fresh)], as c14_run plus `fresh`: build with a new Requester
+    (True) or by Requester.rebuild() on the previous one (False, what Client.transmit does).
+    sched = (cuts, gap): cut points into the concatenated request stream, `gap` service cycles after each piece.
+    returns dict(builts=[bytes | ('raise', cls)], views=[dict], leftover=bytes, closed=bool, raised=None|cls)"""
+    import json
+    import types
+    from urllib.parse import parse_qsl, unquote
+    from hio.base import tyming
+    from hio.core import tcp
+    from hio.core.http import clienting, serving, httping
+    from hio import help as hhelp
+    builts = []
+    requester = None
+    saved_random = clienting.random
+    clienting.random = types.SimpleNamespace(randint=lambda a, b: C14_BOUNDARY_N)
+    try:
+        for spec in specs:
+            method, path, qargs, headers, bkind, bval, explicit_cl, fresh = spec
+            hs = [(n.decode("ascii"), v.decode("latin-1")) for n, v in headers]
+            body, data, fargs = b"", None, None
+            if bkind == 0:
+                body = bytes(bval)
+                if explicit_cl:
+                    hs.append(("Content-Length", str(len(body))))
+            elif bkind == 1:
+                data = json.loads(bytes(bval).decode("utf-8"))
+            else:
+                fargs = dict((k.decode("utf-8"), v.decode("utf-8")) for k, v in bval)
+            qd = dict((k.decode("utf-8"), v.decode("utf-8")) for k, v in qargs)
+            try:
+                if requester is None or fresh:
+                    requester = clienting.Requester(hostname="example.com", port=8080, method=method.decode("utf-8"), path=path.decode("utf-8"),
+                                                    qargs=qd, headers=hhelp.Hict(hs), body=body, data=data, fargs=fargs)
+                    msg = requester.build()
+                else:
+                    msg = requester.rebuild(method=method.decode("utf-8"), path=path.decode("utf-8"), qargs=qd, headers=hhelp.Hict(hs),
+                                            body=body, data=data, fargs=fargs)
+                builts.append(bytes(msg))
+            except (ValueError, UnicodeError, KeyError, TypeError) as ex:
+                builts.append(("raise", type(ex).__name__))
+                requester = None
+    finally:
+        clienting.random = saved_random
+    stream = b"".join(b for b in builts if isinstance(b, bytes))
+    n_sent = sum(1 for b in builts if isinstance(b, bytes))
+
+    tymist = tyming.Tymist(tyme=0.0)
+    views = []
+
+    class Servant(tcp.Server):
+        def serviceConnects(self):
+            pass
+
+    servant = Servant(ha=("127.0.0.1", 8080), tymth=tymist.tymen())
+    sock = FakeSock()
+    ix = tcp.Remoter(tymth=tymist.tymen(), ha=sock.name, ca=sock.peer, cs=sock, bs=1 << 16)
+    servant.ixes[sock.peer] = ix
+    holder = {}
+
+    def app(environ, start_response):
+        req = holder["server"].reqs[sock.peer]
+        views.append(dict(method=req.method, path=req.path, headers=[(k.lower(), v) for k, v in req.headers.items()], body=bytes(req.body),
+                          env_method=environ["REQUEST_METHOD"], env_path=unquote(environ["PATH_INFO"]), query_raw=environ["QUERY_STRING"],
+                          query=parse_qsl(environ["QUERY_STRING"], keep_blank_values=True),
+                          env=dict((k, v) for k, v in environ.items() if k.startswith("HTTP_") or k in ("CONTENT_TYPE", "CONTENT_LENGTH")),
+                          env_body=environ["wsgi.input"].read()))
+        start_response("200 OK", [("Content-Length", "0")])
+        return [b""]
+
+    server = serving.Server(servant=servant, app=app)
+    holder["server"] = server
+    cuts, gap = sched
+    pts = sorted(set(min(max(c, 0), len(stream)) for c in cuts) | {len(stream)})
+    raised = None
+    try:
+        prev = 0
+        for p in pts:
+            if p > prev and not sock.closed:
+                sock.feed(stream[prev:p])
+            prev = p
+            for _ in range(gap):
+                server.service()
+                tymist.tick()
+        idle = 0
+        for _ in range(20000):
+            before = (len(sock.sent), sock.closed, len(views), len(ix.txbs), len(ix.rxbs))
+            server.service()
+            tymist.tick()
+            after = (len(sock.sent), sock.closed, len(views), len(ix.txbs), len(ix.rxbs))
+            idle = idle + 1 if before == after else 0
+            if idle > 8:
+                break
+    except (ValueError, KeyError, AttributeError, TypeError, UnicodeError) as ex:   # escapes the service loop: C16's concern, classified here
+        raised = type(ex).__name__
+    return dict(builts=builts, views=views, leftover=bytes(ix.rxbs) if not sock.closed else b"", closed=sock.closed, raised=raised, n_sent=n_sent)
